@@ -239,6 +239,7 @@ pub fn main(mode: Mode) -> i32 {
                 crash_key: Box::new(|case: &TextCase, _sig, stderr: &str| crash_tag(&case.text, stderr)),
             };
             ctx.run_regressions(&iso);
+            ctx.run_known_reproducers(&iso);
             ctx.run_enum(&iso, corpus_cases());
             let n = ctx.n(4_000, 80_000);
             ctx.run_search(&iso, n, 160, 150);
